@@ -151,7 +151,12 @@ func H_C06_StateLevel() {
 		vCover("c06.state.stale-claim")
 	case 0:
 		// end-to-end bounds without confirmations: member until the armed deadline, dead at it, on our own evidence
+		// reaping passes may run at any time during the suspicion, with a GossipToTheDeadTime shorter or longer
+		// than the suspicion timeout: a suspect is not a dead record and is never reaped
+		conf.GossipToTheDeadTime = []time.Duration{time.Second, 30 * time.Second}[vPick(2)]
 		vAdvance(armed - 1)
+		m.resetNodes()
+		vAssert(m.nodeMap[vPeerA] == a, "c06.state.suspect-not-reaped")
 		vAssert(f.vIsMember(vPeerA), "c06.state.not-dead-early")
 		vAssert(len(f.ev.log) == 0, "c06.state.no-early-event")
 		vAdvance(1)
